@@ -745,7 +745,11 @@ def depth_of(tier: str, dv: int, cv: int, small: bool = False) -> int:
 
 def items(tier: str, seed: int):
     out = []
-    skip = [x for x in os.environ.get("MCK_C14_SKIP_TREES", "").split(",") if x]  # development only (e.g. judging a seeded
+    # Tree `markers` (menu / comment titles that are CHARACTER FOR CHARACTER a marker line of the file format: the begin marker
+    # of the deprecated block, `CONFIG_X is not set`) is NOT explored by default: the sdkconfig format writes a title as
+    # `# <title>` and has no escaping, so such a title is indistinguishable from the marker -- an ambiguity of the format
+    # itself (C02 states the same and does not generate them either). MCK_C14_WITH_MARKERS=1 adds it (informational).
+    skip = [x for x in os.environ.get("MCK_C14_SKIP_TREES", "").split(",") if x] + ([] if os.environ.get("MCK_C14_WITH_MARKERS") == "1" else ["markers"])  # development only (e.g. judging a seeded
     # change while a tree alarms on the unchanged repository); unset in every recorded run
     for name, t in trees().items():
         if name in skip:
